@@ -104,6 +104,19 @@ pub fn exec_full(c: &Case, fault: Option<(usize, bool)>, kind: std::io::ErrorKin
             return (steps, calls, tail, failed, String::new());
         }
     }
+    // (oracle stream only) two member bars move to a second MultiProgress over the same terminal, are used as anchors there and are
+    // removed again: the move repaints the MultiProgress the bar leaves, and a fault in that repaint must not leave the bar half-moved
+    if tabw {
+        let mp2 = MultiProgress::with_draw_target(ProgressDrawTarget::term_like(Box::new(rec.clone())));
+        let movers: Vec<ProgressBar> = bars.iter().flatten().take(2).cloned().collect();
+        for b in movers {
+            let failed_before = rec.failed();
+            let r = catch_unwind(AssertUnwindSafe(|| { let moved = mp2.add(b.clone()); moved.tick(); let extra = mp2.insert_after(&moved, ProgressBar::with_draw_target(Some(1), ProgressDrawTarget::hidden())); extra.tick(); mp2.remove(&moved); extra.finish(); }));
+            steps.push(Step { outcome: if r.is_ok() { "ok".into() } else { "panic".into() }, logical: logical(&bars), io_ok: None, failed_during: rec.failed() > failed_before });
+            if r.is_err() { let calls = rec.st.lock().unwrap().calls; std::mem::forget(bars); std::mem::forget(mp); std::mem::forget(mp2); return (steps, calls, "panic-after-move".into(), rec.failed(), String::new()); }
+        }
+        drop(mp2);
+    }
     // afterwards: one more call on every live bar and on the MultiProgress must still work
     let (calls_end, failed_end) = (rec.calls(), rec.failed());
     let plf: String = bars.iter().map(|b| match b { None => "-".to_string(), Some(pb) => format!("{}/{}/{}", pb.position(), pb.length().map_or("none".into(), |l| l.to_string()), pb.is_finished()) }).collect::<Vec<_>>().join(",");
@@ -135,10 +148,10 @@ pub fn run(seed: u64, tier: &str, out: &mut Out) {
                 let kind = KINDS[(kind0 + k + sticky as usize) % KINDS.len()];
                 let (st, _, tail) = exec_kind(&c, Some((k, sticky)), kind);
                 for (i, (a, b)) in base.iter().zip(st.iter()).enumerate() {
-                    if b.outcome != "ok" { verdict = format!("FAIL panic k={k} sticky={sticky} op={i} {} then {tail}", c.ops[i].enc()); break 'plans; }
-                    if b.logical.contains("PANIC") { verdict = format!("FAIL poisoned k={k} sticky={sticky} op={i} {}", c.ops[i].enc()); break 'plans; }
-                    if a.logical != b.logical { verdict = format!("FAIL logical-state k={k} sticky={sticky} op={i} {} without={} with={}", c.ops[i].enc(), a.logical, b.logical); break 'plans; }
-                    if let Some(ok) = b.io_ok { if ok == b.failed_during { verdict = format!("FAIL result-not-reported k={k} sticky={sticky} kind={kind:?} op={i} {} returned_ok={ok} failed_during={}", c.ops[i].enc(), b.failed_during); break 'plans; } }
+                    if b.outcome != "ok" { verdict = format!("FAIL panic k={k} sticky={sticky} op={i} {} then {tail}", c.ops.get(i).map_or("move-to-second-multi".to_string(), |o| o.enc())); break 'plans; }
+                    if b.logical.contains("PANIC") { verdict = format!("FAIL poisoned k={k} sticky={sticky} op={i} {}", c.ops.get(i).map_or("move-to-second-multi".to_string(), |o| o.enc())); break 'plans; }
+                    if a.logical != b.logical { verdict = format!("FAIL logical-state k={k} sticky={sticky} op={i} {} without={} with={}", c.ops.get(i).map_or("move-to-second-multi".to_string(), |o| o.enc()), a.logical, b.logical); break 'plans; }
+                    if let Some(ok) = b.io_ok { if ok == b.failed_during { verdict = format!("FAIL result-not-reported k={k} sticky={sticky} kind={kind:?} op={i} {} returned_ok={ok} failed_during={}", c.ops.get(i).map_or("move-to-second-multi".to_string(), |o| o.enc()), b.failed_during); break 'plans; } }
                 }
                 if tail != "ok" { verdict = format!("FAIL later-calls k={k} sticky={sticky} {tail}"); break 'plans; }
             }
